@@ -29,8 +29,9 @@ CHECKS = {
     'C11': ('differential runtime monitor vs the NumPy dtcwt inverse on arbitrary pyramids; absent-entry metamorphic monitor',
             'DTCWTInverse on dense and one-hot (plus dense background: reference quirk, see DESIGN) pyramids shaped '
             'by the reference forward is compared with dtcwt.Transform2d.inverse; every absent subset of '
-            '{lowpass, levels} in three encodings is compared with explicit zeros. Three mechanisms are open '
-            'known findings keyed by shape/encoding predicates.', '5/C11'),
+            '{lowpass, levels} in three encodings is compared with explicit zeros. Two mechanisms are open known '
+            'findings keyed by shape predicates (two more, the empty-tensor marker and the missing lowpass, were '
+            'repaired in the repository and are reported as violations if they return).', '5/C11'),
     'C12': ('metamorphic runtime monitors: layout permutation, same-layout round trip, skip/include masks, prefix consistency',
             'All 120 (o_dim, ri_dim) pairs in -6..5 (every run), skip/include masks (all for J<=3 in thorough) and '
             'prefix consistency are checked against the default-layout transform observed in the same run at a '
@@ -44,7 +45,8 @@ CHECKS = {
             'The operator of each DWT module configuration is extracted from forward executions on impulses (no code '
             'shared with the backward); the full Jacobian from one batched backward execution at two points and every '
             '2^(J+1)-1 requires-grad pattern of the inverse are compared with it; every AFB*/SFB*.backward invocation is '
-            'compared with the native VJP of the Function forward body. Three mechanisms are open known findings with '
+            'compared with the native VJP of the Function forward body. Two mechanisms (both asserted by the repository own '
+            'gradient tests, so not repairable there) are open known findings with '
             'localisation checks that still report other backward defects in those modes. Also driven: cotangents of '
             'magnitude 1e-10, a second pull-back through one recorded graph, odd-length custom filter banks, reload '
             'histories, and (thorough) the repository tests under the Function-level monitor.', '5/C05 and 10.5'),
